@@ -6,7 +6,7 @@ MANIFEST = dict(
     text='Theorems in coq/Properties/C03*.v (every request is answered at once or queued; at most one terminal reply and at most one EXPRIED notice per RequestId in every core history; replies go to the issuing connection) are machine-checked over the engine model; tie = differential correspondence (every reply of every connection is compared, in order) on drained histories; monitor = reply multiset per (connection, RequestId) on implementation traces incl. completeness after the drain phase.',
     note="Trusted: Coq kernel; hand-written model validated by the correspondence check of the same run; extraction (ExtrOcamlBasic only); harness + hooks; sequential schedules at request/sweep granularity, one shard, manual clock (sweeper driver loops replayed by the harness); see evidence trusted_base for the full list of modelled-not-verified parts. Ownership of pooled command objects and real socket delivery are decided by the sub-check checks/C03_net.py (coq/ReplyNet/Pool.v, coq/Properties/C03_net.v; real server child process; schedules are the Go runtime's: statistical, plus a deterministic replay of the recycled-command defect fixed in /repo 9866a3d).",
 )
-PROFILES = [("core", 0.25), ("waiters", 0.2), ("timeouts", 0.15), ("expiry", 0.15), ("reentrant", 0.05), ("sched", 0.1), ("sched2", 0.1)]
+PROFILES = [("core", 0.25), ("waiters", 0.2), ("timeouts", 0.15), ("expiry", 0.15), ("reentrant", 0.05), ("sched", 0.1), ("sched2", 0.1), ("schedsweep", 0.08)]
 MONITORS = ['C03', 'PANIC']
 
 
